@@ -18,11 +18,16 @@ def _factory(params, env=None):
     def fn():
         e = env or SymEnv()
         _lab.reset()
-        ans = ANSWERS[e.choose("answer", len(ANSWERS))] if params.get("answer") is None else params["answer"]
-        cl, cr = CONTENTS[e.choose("contents", len(CONTENTS))]
+        if params.get("answers"):
+            ans = params["answers"][e.choose("answer", len(params["answers"]))]
+        else:
+            ans = ANSWERS[e.choose("answer", len(ANSWERS))] if params.get("answer") is None else params["answer"]
+        cl, cr = CONTENTS[e.choose("contents", len(CONTENTS))] if (params.get("rounds", 1) == 1 and not params.get("answers")) else CONTENTS[0]
         calls = []
+        ans_box = [ans]
 
         def resolve_conflict(self, f1, f2):
+            ans = ans_box[0]
             d = {f1.side: f1, f2.side: f2}
             b1, b2 = f1.read(), f2.read()
             calls.append({"sides": (f1.side, f2.side), "bytes": {f1.side: b1, f2.side: b2}, "paths": (f1.path, f2.path)})
@@ -49,68 +54,118 @@ def _factory(params, env=None):
             if who == "remote":
                 return (d[1], keep)
             return (io.BytesIO(MERGED), keep)
+        shape = params["shape"]
+        # schedule independence: the outcome under the canonical fair schedule, computed once per (flavour, shape, answer, contents) and worker
+        ref = None
+        if params.get("rounds", 1) == 1 and cl != cr:
+            rk = (params["flavour"], shape, ans, cl, cr)
+            if rk not in _REF:
+                rl = Lab(params["flavour"], cs_methods={"resolve_conflict": resolve_conflict})
+                try:
+                    ok = _scenario(rl, shape, cl, cr) and rl.drain() is not None
+                    _REF[rk] = (rl.tree(0), rl.tree(1)) if ok else None
+                finally:
+                    rl.stop_engine()
+                _lab.reset()
+            ref = _REF[rk]
+            calls.clear()
         lab = Lab(params["flavour"], cs_methods={"resolve_conflict": resolve_conflict})
         h = History(lab, e)
-        shape = params["shape"]
         try:
-            if shape == "edit/edit":
-                lab.user(lambda: lab.p[0].create("/L/a", io.BytesIO(b"base")))
-                if lab.drain() is None:
-                    raise Fail("base tree did not become quiet", symptom="base-not-quiet")
-                calls.clear()
-                lab.user(lambda: lab.p[0].upload(lab.p[0].info_path("/L/a").oid, io.BytesIO(cl)))
-                lab.user(lambda: lab.p[1].upload(lab.p[1].info_path("/R/a").oid, io.BytesIO(cr)))
-                if cl == b"base" or cr == b"base":
-                    return {"ok": True, "nontrivial": False, "key": None}
-            else:
-                lab.user(lambda: lab.p[0].create("/L/a", io.BytesIO(cl)))
-                lab.user(lambda: lab.p[1].create("/R/a", io.BytesIO(cr)))
+            if not _scenario(lab, shape, cl, cr):
+                raise Fail("base tree did not become quiet", symptom="base-not-quiet")
+            calls.clear()
             h.hist.append((shape, ans, (cl[:8], cr[:8])))
             h.slots(params["slots"])
             h.drain()
-            tl, tr = lab.tree(0), lab.tree(1)
-            info = dict(local=show(_short(tl)), remote=show(_short(tr)), answer=ans, calls=len(calls))
-            # -- when (and only when) contents differ, the resolver is called once, with the two sides' actual bytes and labels
-            if cl == cr:
-                if calls:
-                    raise Fail("resolver called although both sides hold identical content", symptom="called-on-equal", **info)
-                if tl != {"/a": cl} or tr != {"/a": cl}:
-                    raise Fail("identical content was not merged silently", symptom="equal-not-merged", **info)
-                return {"ok": True, "key": repr((shape, ans, cl[:4], cr[:4], h.hist[1:])), "nontrivial": True}
-            if len(calls) != 1:
-                raise Fail("resolver called %d times for one conflict" % len(calls), symptom="call-count", **info)
-            c = calls[0]
-            if sorted(c["sides"]) != [0, 1] or c["bytes"][0] != cl or c["bytes"][1] != cr:
-                raise Fail("resolver handles do not carry the two sides' actual bytes and side labels", symptom="bad-handles", **info)
-            # -- outcome table
-            who, _, keepw = ans.partition("/")
-            if ans in ("none", "raises", "not-a-tuple", "wrong-arity", "not-a-file", "empty-tuple", "zero"):
-                win, lose, keep = cr, cl, True           # remote wins, local kept
-            elif who == "local":
-                win, lose, keep = cl, cr, keepw == "keep"
-            elif who == "remote":
-                win, lose, keep = cr, cl, keepw == "keep"
-            else:
-                win, lose, keep = MERGED, None, keepw == "keep"
-            if tl.get("/a") != win or tr.get("/a") != win:
-                raise Fail("both sides do not end with the resolver's answer at the path", symptom="wrong-winner", **info)
-            conf = {k: v for t in (tl, tr) for k, v in t.items() if ".conflicted" in k}
-            if who == "merged":
-                if not keep and (conf or set(tl) != {"/a"} or set(tr) != {"/a"}):
-                    raise Fail("merged answer with keep=False left extra files", symptom="merged-extras", **info)
-                if keep and not (cl in conf.values() and cr in conf.values()):
-                    raise Fail("merged answer with keep=True did not keep both originals", symptom="merged-keep-lost", **info)
-            else:
-                if keep and lose not in conf.values():
-                    raise Fail("losing version not kept as a '.conflicted' sibling although keep is true", symptom="loser-not-kept", **info)
-                if not keep and conf:
-                    raise Fail("'.conflicted' sibling present although keep is false", symptom="loser-kept", **info)
+            verdict = judge(lab, h, shape, ans, cl, cr, calls, ({}, {}))
+            if ref is not None and (lab.tree(0), lab.tree(1)) != ref:
+                raise Fail("the outcome depends on how engine steps interleave after the conflict exists", symptom="schedule-dependent",
+                           local=show(_short(lab.tree(0))), remote=show(_short(lab.tree(1))), canonical_local=show(_short(ref[0])), canonical_remote=show(_short(ref[1])))
+            if params.get("rounds", 1) == 1 or cl == cr:
+                return verdict
+            # -- second conflict on the same file: both sides edit again after the first conflict was settled
+            old_conf = tuple({k: v for k, v in t.items() if ".conflicted" in k} for t in (lab.tree(0), lab.tree(1)))
+            ans2 = ANSWERS[e.choose("answer2", len(ANSWERS))]
+            cl2, cr2 = [(b"A2", b"B2"), (b"S2", b"S2")][e.choose("contents2", 2)]
+            calls.clear()
+            lab.user(lambda: lab.p[0].upload(lab.p[0].info_path("/L/a").oid, io.BytesIO(cl2)))
+            lab.user(lambda: lab.p[1].upload(lab.p[1].info_path("/R/a").oid, io.BytesIO(cr2)))
+            ans_box[0] = ans2
+            h.hist.append(("second", ans2, (cl2, cr2)))
+            h.slots(params.get("slots2", 2))
+            h.drain()
+            return judge(lab, h, "second:" + shape, ans2, cl2, cr2, calls, old_conf)
         except Fail as f:
-            return result_fail(h, f, params, {"answer": ans, "shape": shape, "ops": None})
+            sd = {"answer": ans_box[0], "shape": shape, "ops": None}
+            if len(h.hist) > 1 and any(isinstance(x, tuple) and x[0] == "second" for x in h.hist):
+                sd["after_first_answer"] = ans
+            return result_fail(h, f, params, sd)
         finally:
             lab.stop_engine()
-        return {"ok": True, "key": repr((shape, ans, cl[:4], cr[:4], h.hist[1:])), "nontrivial": True}
     return fn
+
+
+_REF = {}
+
+
+def _scenario(lab, shape, cl, cr):
+    """bring the conflict into existence (no engine step after it)"""
+    if shape == "edit/edit":
+        lab.user(lambda: lab.p[0].create("/L/a", io.BytesIO(b"base")))
+        if lab.drain() is None:
+            return False
+        lab.user(lambda: lab.p[0].upload(lab.p[0].info_path("/L/a").oid, io.BytesIO(cl)))
+        lab.user(lambda: lab.p[1].upload(lab.p[1].info_path("/R/a").oid, io.BytesIO(cr)))
+    else:
+        lab.user(lambda: lab.p[0].create("/L/a", io.BytesIO(cl)))
+        lab.user(lambda: lab.p[1].create("/R/a", io.BytesIO(cr)))
+    return True
+
+
+def judge(lab, h, shape, ans, cl, cr, calls, old_conf):
+    """the statement's oracle for one conflict; old_conf = per side, the '.conflicted' files (name -> content) that existed before it"""
+    tl, tr = lab.tree(0), lab.tree(1)
+    tl = {k: v for k, v in tl.items() if not (k in old_conf[0] and old_conf[0][k] == v)}
+    tr = {k: v for k, v in tr.items() if not (k in old_conf[1] and old_conf[1][k] == v)}
+    info = dict(local=show(_short(tl)), remote=show(_short(tr)), answer=ans, calls=len(calls))
+    key = repr((shape, ans, cl[:4], cr[:4], h.hist[1:]))
+    # -- when (and only when) contents differ, the resolver is called once, with the two sides' actual bytes and labels
+    if cl == cr:
+        if calls:
+            raise Fail("resolver called although both sides hold identical content", symptom="called-on-equal", **info)
+        if tl != {"/a": cl} or tr != {"/a": cl}:
+            raise Fail("identical content was not merged silently", symptom="equal-not-merged", **info)
+        return {"ok": True, "key": key, "nontrivial": True}
+    if len(calls) != 1:
+        raise Fail("resolver called %d times for one conflict" % len(calls), symptom="call-count", **info)
+    c = calls[0]
+    if sorted(c["sides"]) != [0, 1] or c["bytes"][0] != cl or c["bytes"][1] != cr:
+        raise Fail("resolver handles do not carry the two sides' actual bytes and side labels", symptom="bad-handles", **info)
+    # -- outcome table
+    who, _, keepw = ans.partition("/")
+    if ans in ("none", "raises", "not-a-tuple", "wrong-arity", "not-a-file", "empty-tuple", "zero"):
+        win, lose, keep = cr, cl, True           # remote wins, local kept
+    elif who == "local":
+        win, lose, keep = cl, cr, keepw == "keep"
+    elif who == "remote":
+        win, lose, keep = cr, cl, keepw == "keep"
+    else:
+        win, lose, keep = MERGED, None, keepw == "keep"
+    if tl.get("/a") != win or tr.get("/a") != win:
+        raise Fail("both sides do not end with the resolver's answer at the path", symptom="wrong-winner", **info)
+    conf = {k: v for t in (tl, tr) for k, v in t.items() if ".conflicted" in k}
+    if who == "merged":
+        if not keep and (conf or set(tl) != {"/a"} or set(tr) != {"/a"}):
+            raise Fail("merged answer with keep=False left extra files", symptom="merged-extras", **info)
+        if keep and not (cl in conf.values() and cr in conf.values()):
+            raise Fail("merged answer with keep=True did not keep both originals", symptom="merged-keep-lost", **info)
+    else:
+        if keep and lose not in conf.values():
+            raise Fail("losing version not kept as a '.conflicted' sibling although keep is true", symptom="loser-not-kept", **info)
+        if not keep and conf:
+            raise Fail("'.conflicted' sibling present although keep is false", symptom="loser-kept", **info)
+    return {"ok": True, "key": key, "nontrivial": True}
 
 
 def _short(t):
@@ -149,11 +204,15 @@ def replay(harness, params, model):
 def signature(harness, params, rec):
     info = rec.get("info") or {}
     hist = info.get("hist") or [[None, None]]
-    first = hist[0] if hist else [None, None]
+    tuples = [x for x in hist if isinstance(x, (list, tuple))]
+    first = tuples[-1] if tuples else [None, None]          # the conflict that was being judged (the second one in the two-conflict family)
     sym = info.get("symptom") or info.get("why") or rec.get("exc")
     if isinstance(sym, str) and sym.startswith("engine not quiet"):
         sym = "no-quiescence"
-    return {"flavour": params["flavour"], "shape": params["shape"], "answer": first[1] if len(first) > 1 else None, "symptom": sym, "ops": None}
+    sd = {"flavour": params["flavour"], "shape": params["shape"], "answer": first[1] if len(first) > 1 else None, "symptom": sym, "ops": None}
+    if len(tuples) > 1:
+        sd["after_first_answer"] = tuples[0][1]
+    return sd
 
 
 def jobs(tier):
@@ -162,6 +221,18 @@ def jobs(tier):
     for f in (("oid", "path") if q else ("oid", "path", "mixed", "oid-ci")):
         for shape in ("create/create", "edit/edit"):
             out.append({"harness": "resolve", "params": {"flavour": f, "shape": shape, "slots": 2 if q else 3}, "label": "%s/%s/%d-slots" % (f, shape, 2 if q else 3)})
+    # long schedules (5 slots: e.g. both intakes, then three sync steps before the next intake) on the outcomes that rename the loser aside
+    for f in (("path", "oid") if q else ("oid", "path", "mixed")):
+        for shape in ("create/create", "edit/edit"):
+            if q and f == "oid" and shape == "edit/edit":
+                continue
+            out.append({"harness": "resolve", "params": {"flavour": f, "shape": shape, "slots": 5, "answers": ["none", "remote/keep", "local/keep"]},
+                        "label": "%s/%s/5-slots/keep-answers" % (f, shape)})
+    # two successive conflicts on one file: the first settled by each of the well-formed answers (no schedule freedom), the second by any answer under every 2-slot schedule
+    for f in (("oid", "path") if q else ("oid", "path", "mixed")):
+        for a1 in ("local/drop", "local/keep", "remote/drop", "remote/keep", "merged/drop"):
+            out.append({"harness": "resolve", "params": {"flavour": f, "shape": "edit/edit", "slots": 0, "rounds": 2, "answer": a1, "slots2": 2 if q else 3},
+                        "label": "%s/two-conflicts/first=%s" % (f, a1)})
     out.append({"harness": "resolve~no-silent-merge", "params": {"flavour": "oid", "shape": "create/create", "slots": 1, "answer": "none"}, "label": "resolve~no-silent-merge", "role": "sens"})
     return out
 
@@ -171,10 +242,10 @@ def meta(tier):
         "explanation": "M2: both conflict shapes (create/create, edit/edit) x 7 content pairs (different, equal, empty on either/both sides, > 2 KiB different/equal) x 11 resolver behaviours "
                        "(pick either side x keep, merged data x keep, None, exception, non-tuple, wrong arity, non-file) x every schedule of 2 (thorough 3) slots after the conflict exists, "
                        "through the real engine with the application's resolver replaced. Oracles: call count (0 iff equal contents, else exactly 1), bytes and side labels of both handles, "
-                       "the outcome table of the statement on both final trees.",
+                       "the outcome table of the statement on both final trees; and schedule independence: both final trees equal, exactly, those the same conflict produces under the canonical fair schedule. A second family settles a first conflict (5 well-formed answers) and then lets both sides edit the same file again: the second conflict is judged by the same oracle under every schedule.",
         "bounds": {"answers": ANSWERS, "content pairs": [(a[:4].decode("latin1"), b[:4].decode("latin1")) for a, b in CONTENTS], "slots": "2 (3)", "flavours": "oid, path (thorough + mixed, case-insensitive)"},
         "symbolic": ["resolver behaviour", "content pair", "schedule slots"],
-        "outside": ["arbitrary contents beyond the representative pairs", "conflicts on more than one file at once", "folder/file conflicts (C02)"],
+        "outside": ["arbitrary contents beyond the representative pairs", "conflicts on more than one file at once", "more than two successive conflicts on one file", "folder/file conflicts (C02)"],
         "stubs": ["engine lab determinisation", "CloudSync.resolve_conflict overridden in a subclass (the documented override point)"],
         "assumptions": [],
     }
